@@ -418,7 +418,7 @@ class S15(object):
         self.ncrash = 0
         self.tape = 0
         self.tape_dirty = False
-        self.maybe_open = set()   # (dev, nm) of data files the model knows to be open in this Session
+        self.holders = {}         # file number -> [dev, nm] (None: unknown) of data files the ENGINE says are open
         self.nfaults = 0          # injected faults that fired so far
 
     # -- plumbing -------------------------------------------------------------
@@ -429,7 +429,7 @@ class S15(object):
     def open_session(self):
         self.d = _mk(self.w, self.root, self.sk, tape=self.tape)
         self.bound = set()
-        self.maybe_open = set()
+        self.holders = {}
 
     def use(self, dev):
         """Before a transaction on the cassette: if an earlier op left the tape in the middle of a file or
@@ -492,6 +492,11 @@ class S15(object):
             self.open_session()
             self.resync('crash')
 
+    def host_sub(self, dev, nm):
+        """Tail of the host path that tells Z:NM.BAS from @:NM.BAS (both match the bare file name)."""
+        h = self.host(dev, nm)
+        return os.path.join(os.path.basename(os.path.dirname(h)), os.path.basename(h))
+
     def host(self, dev, nm):
         if dev == 'Z':
             return '%s/z/%s.BAS' % (self.root, nm)
@@ -513,11 +518,34 @@ class S15(object):
     def save(self, fmt, dev, nm):
         suffix = {'B': b'', 'P': b',P', 'A': b',A'}[fmt]
         name = self.bname(dev, nm)
-        if (dev, nm) in self.maybe_open:
-            # a data file that an earlier op opened under this very name and left open: SAVE would rightly be refused
-            self.d.exec(b'CLOSE')
-            self.maybe_open.clear()
+        self.release(dev, nm)
         return self.d.exec(b'SAVE "' + name + b'"' + suffix)
+
+    NUMS = (1, 2, 15)
+
+    def probe_open(self):
+        """Ask the engine which file numbers are open (LOC of a closed number is Bad file number) and bring
+        self.holders in line: never infer it from whether a fault fired or what a statement answered."""
+        for n in self.NUMS:
+            r = self.d.exec(b'Q#=LOC(%d)' % n)
+            if r.err is None:
+                self.holders.setdefault(n, None)
+            else:
+                self.holders.pop(n, None)
+
+    def release(self, dev, nm):
+        """A data file that an earlier op left open under the very name a SAVE is aimed at (or under a name the
+        model does not know): while it is held, SAVE is rightly refused (OUTPUT/APPEND holder) or shares the host
+        file with a second handle (RANDOM holder), and a fault armed for the SAVE would hit the holder's handle.
+        Close the holder first - always before anything is armed."""
+        if any(h is None or h == [dev, nm] for h in self.holders.values()):
+            self.run.probe('holder_closed')
+            r = self.d.exec(b'CLOSE')
+            self.probe_open()
+            if r.err is not None or self.holders:
+                # no claim about data files here; go on in a fresh Session
+                self.restart()
+                self.resync('CLOSE of data files')
 
     def load(self, dev, nm, how='LOAD'):
         return self.d.exec(b(how) + b' "' + self.bname(dev, nm) + b'"')
@@ -736,8 +764,9 @@ class S15(object):
         if self.start is None:
             return
         before_list = self.canon_listing(fmt)
-        name = self.bname(dev, nm)   # binds before the fault is armed
-        sub = os.path.basename(self.host(dev, nm))
+        self.release(dev, nm)        # holders of the name are closed before the fault is armed ...
+        name = self.bname(dev, nm)   # ... and the name is bound before
+        sub = self.host_sub(dev, nm)
         nth = op.get('nth', 1)
         if 'back' in op:
             # scheduling only: count the host writes of this very SAVE in a fault-free rehearsal on another name
@@ -773,7 +802,7 @@ class S15(object):
         fired = len(self.fs.fired) > nfired
         self.nfaults += len(self.fs.fired) - nfired
         self.run.state('savefault', fmt, dev, self.src, fired, r.err, op['at'], 'back' in op)
-        if dev != 'CAS' and 'keep' in op and any(k == 'close' for k, _, _ in self.fs.fired[nfired:]):
+        if dev != 'CAS' and 'keep' in op and any(k == 'close' and pth and pth.endswith(sub) for k, _, pth in self.fs.fired[nfired:]):
             self.lose_buffer(self.host(dev, nm), op['keep'])
         if not fired:
             # the planned call never happened: this was an ordinary save
@@ -832,7 +861,7 @@ class S15(object):
         if dev not in ('Z', '@'):
             return
         name = self.bname(dev, nm)
-        sub = os.path.basename(self.host(dev, nm))
+        sub = self.host_sub(dev, nm)
         self.fs.arm(op['at'], nth=op['nth'], err=op['errno'], path_sub=sub)
         nfired = len(self.fs.fired)
         kind = '%s:%s' % (op['at'], errno.errorcode.get(op['errno'], op['errno']))
@@ -847,14 +876,13 @@ class S15(object):
             fired = len(self.fs.fired) > nfired
             self.nfaults += len(self.fs.fired) - nfired
             if r.err is None:
-                self.maybe_open.add((dev, nm))
+                self.holders[num] = [dev, nm]
                 if op.get('data') and op['mode'] != 'RANDOM':
                     self.d.exec(b'PRINT#%d,"DATA";1' % num)
             then = op.get('then')
             if then:
-                r2 = self.d.exec(b(then) + (b'%d' % num if then.endswith('#') else b''))
-                if r2.err is None:
-                    self.maybe_open.clear()
+                self.d.exec(b(then) + (b'%d' % num if then.endswith('#') else b''))
+            self.probe_open()
         except EngineCrash as e:
             # C15 says nothing about data files: a host exception out of OPEN/PRINT#/CLOSE is C01's business.
             # Note it there and go on in a fresh Session (which ends the same-Session history).
@@ -871,7 +899,7 @@ class S15(object):
             self.open_session()
             self.resync('crash in OPEN of a data file')
             return
-        self.run.state('openfault', dev, op['mode'], op['at'], op['nth'], fired, r.err, op.get('then'))
+        self.run.state('openfault', dev, op['mode'], op['at'], op['nth'], fired, r.err, op.get('then'), len(self.holders))
         if fired:
             self.run.probe('openfault_fired')
 
@@ -884,9 +912,8 @@ class S15(object):
         if self.start is None:
             return
         if op.get('then'):
-            r = self.d.exec(b(op['then']))
-            if r.err is None:
-                self.maybe_open.clear()
+            self.d.exec(b(op['then']))
+            self.probe_open()
         tag = ':after-faults-stopped'
         for dev, nm in op.get('targets', []):
             if dev not in ('Z', '@'):
@@ -899,13 +926,14 @@ class S15(object):
                     return
                 self.run.state('settle', fmt, dev, self.src, r.err, self.nfaults > 0, self.size_bucket())
                 if r.err is not None:
-                    self.v('save-error:%s:%s%s' % (fmt, dev, tag), 'no fault armed, files closed (%s), %d injected fault(s) earlier in this Session\'s history: '
-                           'SAVE (format %s) to %s reports %r' % (op.get('then'), self.nfaults, fmt, self.bname(dev, nm), r))
+                    self.v('save-error:%s:%s%s' % (fmt, dev, tag), 'no fault armed, the engine reports no data file open under this name (open numbers: %r), '
+                           '%d injected fault(s) earlier in this Session\'s history: SAVE (format %s) to %s reports %r' % (
+                               sorted(self.holders), self.nfaults, fmt, self.bname(dev, nm), r))
                     continue
                 # verify from a second Session; the one that saw the faults stays as it is
-                mine = (self.d, self.bound, self.maybe_open)
+                mine = (self.d, self.bound, self.holders)
                 self.d = _mk(self.w, self.root, self.sk, tape=998)
-                self.bound, self.maybe_open = set(), set()
+                self.bound, self.holders = set(), {}
                 try:
                     vop = {'fmt': fmt, 'dev': dev, 'nm': nm, 'how': 'LOAD'}
                     if fmt == 'A' and self.canon and before_list is None:
@@ -918,7 +946,7 @@ class S15(object):
                     except EngineCrash:
                         pass
                 finally:
-                    self.d, self.bound, self.maybe_open = mine
+                    self.d, self.bound, self.holders = mine
                 self.run.probe('settled')
 
     def attempt_other(self, claimed, fn):
